@@ -142,6 +142,31 @@ def gen_policy_history(rng):
         c["durations"] = [rng.choice([0.0, 0.0, G, 0.25]) for _ in c["durations"]]
     if rng.random() < 0.15:
         sc["cfg"]["no_retry"] = True
+    if rng.random() < 0.5:
+        # goal-directed episode: trip, wait around the timeout, probe (success/failure), then single failures
+        k = br["trip_on"][0]
+        th = br["threshold"]
+        calls = sc["calls"]
+        plan = []
+        for _ in range(th):
+            plan.append(("fail", rng.choice([0.0, G])))
+        plan.append((rng.choice(["ok", "ok", "fail", "abort"]), rng.choice([rcv, rcv + G, rcv + G, 2 * rcv])))
+        for _ in range(rng.randint(1, th + 1)):
+            plan.append((rng.choice(["fail", "fail", "ok"]), rng.choice([0.0, G, rcv - G, rcv + G])))
+        for i, (what, gap) in enumerate(plan):
+            if i >= len(calls):
+                calls.append(dict(calls[-1]))
+            c = calls[i] = dict(calls[i])
+            c["gap"] = gap
+            c["abort_at"] = None
+            n = len(c["outcomes"])
+            if what == "fail":
+                c["outcomes"] = [["exc", k, None] for _ in range(n)]
+            elif what == "ok":
+                c["outcomes"] = [["ok"] for _ in range(n)]
+            else:
+                c["outcomes"] = [["sp", "abort"] for _ in range(n)]
+        sc["cfg"]["per_class"] = {}
     return sc
 
 
